@@ -26,6 +26,7 @@ type tierCfg struct {
 	Grid            map[string][]int `json:"grid"`
 	Cases           []map[string]int `json:"cases"`
 	SolverTimeoutMs int              `json:"solver_timeout_ms"`
+	FeasTimeoutMs   int              `json:"feas_timeout_ms"`
 	MaxPaths        int              `json:"max_paths"`
 	MaxSteps        int64            `json:"max_steps"`
 	WitnessEvery    int              `json:"witness_every"`
@@ -393,6 +394,10 @@ func runInstance(prog *ssa.Program, inst instance, known map[string]bool, solver
 		fatal(err)
 	}
 	defer solver.Close()
+	solver.FeasTimeoutMs = inst.tier.FeasTimeoutMs
+	if solver.FeasTimeoutMs == 0 {
+		solver.FeasTimeoutMs = 2000
+	}
 	in := sym.NewInterp(prog)
 	in.TC = tc
 	in.Solver = solver
